@@ -158,7 +158,17 @@ impl OutputConfig {
         let compact = args.indent == 0;
 
         let indent_str = if compact {
-            String::new()
+            // `-I0` means compact for JSON only. Block YAML has no compact
+            // form: a zero-width step would put every nested mapping's keys
+            // in its parent's column, which reads back as a different
+            // document. Use the same 2 columns the streaming fast path
+            // hardcodes for `-I0` (see `yaml_indent_spaces`); the JSON
+            // branch of `output_value` ignores `indent_str` when `compact`.
+            if args.output_format == OutputFormat::Yaml {
+                "  ".to_string()
+            } else {
+                String::new()
+            }
         } else if args.tab {
             "\t".to_string()
         } else {
